@@ -22,7 +22,7 @@ Oracle 1 (layout leg, complete here):
     property statement covers versions 0 and 1).
 History (keys C04:history:...): per work item ONE long-lived TxMsg and ONE long-lived RxMsg additionally parse every
   datagram of the decoder legs, in sequence: the reference encoding of each enumerated case, followed (every case of a
-  base / burst chunk, every 32nd case of a sweep, every base of the mutation leg; of the same-shape case datagrams of a sweep
+  base chunk, every 8th case of a burst-pattern chunk, every 32nd case of a sweep, every base of the mutation leg; of the same-shape case datagrams of a sweep
   every 8th - of an all-FN sweep every 32nd - goes to the long-lived object) by its header-only truncation, a
   NOPE.ind (rx; after a NOPE.ind a v1 datagram with burst instead) / the header with the other version (tx) and a
   datagram of the same kind with another burst length; in the mutation leg also the whole neighbourhood with the
@@ -351,13 +351,14 @@ _RAMP148 = _RAMP[148]
 # modulation -> the next one in the list whose burst length differs
 _OTHER_MOD = {"GMSK": "8PSK", "8PSK": "GMSK_AB", "GMSK_AB": "16QAM", "16QAM": "32QAM", "32QAM": "AQPSK", "AQPSK": "GMSK"}
 SWEEP_EXTRAS_EVERY = 32
+BURST_EVERY = 8             # burst-pattern chunks keep one shape per burst length: every 8th case
 SWEEP_REUSE_EVERY = 8       # in sweeps (same shape throughout) every 8th case also goes through the long-lived object(s)
 
 
 def seq_chunk(e, chunk):
     """datagram sequence of an enumeration chunk: (kind, cls, datagram, case); kind 'case' = the reference encoding
-    of an enumerated case; the extras follow every case of a base / burst chunk and every 32nd case of a sweep"""
-    every = SWEEP_EXTRAS_EVERY if chunk[0] == "sweep" else 1
+    of an enumerated case; the extras follow every case of a base chunk, every 8th case of a burst-pattern chunk and every 32nd case of a sweep"""
+    every = SWEEP_EXTRAS_EVERY if chunk[0] == "sweep" else (BURST_EVERY if chunk[0] == "burst" else 1)
     allfn = chunk[0] == "sweep" and chunk[4] == "all"
     for i, c in enumerate(E.cases(chunk)):
         D = ref_octets(e, c)
@@ -753,8 +754,8 @@ def run(ctx):
                  "produced and compared (case key = all message fields + burst pattern + legacy flag); mutated datagrams differ from "
                  "their base by construction and are counted separately, duplicates across bases not removed. History (hist_* counters): "
                  "every datagram of both decoder legs, plus per visited case/base its header-only truncation, a NOPE.ind or "
-                 "other-version header and a same-kind datagram of another burst length (after every case of base/burst chunks, every "
-                 "32nd case of sweeps, every mutation base and between mutation groups; of the same-shape datagrams of a sweep every "
+                 "other-version header and a same-kind datagram of another burst length (after every case of base chunks, every 8th case "
+                 "of burst-pattern chunks, every 32nd case of sweeps, every mutation base and between mutation groups; of the same-shape datagrams of a sweep every "
                  "8th, of an all-FN sweep every 32nd), is also parsed into ONE long-lived TxMsg / "
                  "RxMsg per work item and compared with the reference reading whenever accepted. Interop leg: %s; "
                  "rx = the base / sweep / burst-pattern cases of the rx v0 points with not-carried fields None (legacy off/on, TN; "
